@@ -445,6 +445,7 @@ def build(spec):
         integer_positions=bool(spec.get("integer", True)),
         progress_bar=False,
         additional_data=ad,
+        **({"name": spec["bt_name"]} if spec.get("bt_name") else {})
     )
     return b, {"data": data, "additional": ad, "spy": spy, "template": s}
 
